@@ -176,3 +176,35 @@ fn runny_pair_from(rng: &mut Rng, lines: bool) -> (String, String) {
         (cat(&b), cat(&a))
     }
 }
+
+/// Long byte texts (> 100 tokens for the line and word tokenizers) whose tokens are mostly NOT
+/// valid UTF-8 (Latin-1 words, truncated sequences), the second text derived from the first by
+/// replacing / inserting / deleting a few tokens - different invalid tokens must stay different.
+pub fn runny_bytes_pair(rng: &mut Rng) -> (Vec<u8>, Vec<u8>) {
+    let words: [&[u8]; 8] = [b"caf\xe9", b"caf\xe8", b"\xff", b"\xfe", b"na\xefve", b"\xe2\x82", b"ok", b"\xc3"];
+    let seps: [&[u8]; 3] = [b"\n", b" ", b"\r\n"];
+    let sep = seps[rng.below(seps.len())];
+    let n = rng.range(105, 220);
+    let k = rng.range(2, words.len());
+    let a: Vec<usize> = (0..n).map(|_| rng.below(k)).collect();
+    let mut b = a.clone();
+    for _ in 0..rng.range(1, 4) {
+        let p = rng.below(b.len());
+        match rng.below(3) {
+            0 => b[p] = (b[p] + 1 + rng.below(words.len() - 1)) % words.len(),
+            1 => {
+                b.remove(p);
+            }
+            _ => b.insert(p, rng.below(words.len())),
+        }
+    }
+    let cat = |v: &Vec<usize>| -> Vec<u8> {
+        let mut o = vec![];
+        for &i in v {
+            o.extend_from_slice(words[i]);
+            o.extend_from_slice(sep);
+        }
+        o
+    };
+    (cat(&a), cat(&b))
+}
